@@ -12,7 +12,7 @@ import re
 
 from lib import vlib, gen_lua
 
-FUEL_EXP = 21          # 2^21 machine steps
+FUEL_EXP = 19          # 2^21 machine steps
 
 RT_CLASSES = [
     (re.compile(rb"^attempt to perform arithmetic on"), b"arith"),
@@ -103,7 +103,7 @@ def run_both(ck, cases, gvh=None, oracle=None, want_sources=False):
     gvh = gvh or ck.build_gvh()[0]
     oracle = oracle or ck.build_oracle("luacore")
     go, orc, srcs = make_lines(cases)
-    out_go = vlib.run_lines_resilient(gvh, ["lua"], go, per_case_timeout=20)
+    out_go = vlib.run_lines_resilient(gvh, ["lua"], go, per_case_timeout=10)
     rc, out_or, err = vlib.run_lines(oracle, [], orc, timeout=3000)
     gmap = dict(norm_line(l) for l in out_go if l)
     omap = dict(norm_line(l) for l in out_or if l)
